@@ -240,7 +240,11 @@ func c02Rewrites(t *pgNode) []string {
 }
 
 func c02Signature(p *pgProgram, what string) string {
-	rw := strings.Join(c02Rewrites(p.T), "; ")
+	keys := c02Rewrites(p.T)
+	if what == "impure call at Generate time" && len(keys) > 1 {
+		keys = keys[:1] // one finding, however many other constant sub-expressions the program has
+	}
+	rw := strings.Join(keys, "; ")
 	if rw == "" {
 		rw = "no constant sub-expression recognised"
 	}
@@ -485,6 +489,15 @@ func c02Corpus() []*pgProgram {
 		mk(pgNLet("y", pgNOp("+", pgNInt(1), pgNInt(2)), pgNLet("f", pgNClo([]string{"z"}, pgNOp("*", pgNId("z"), pgNId("y"))),
 			pgNIf(pgNOp("<", pgNInt(1), pgNInt(2)), pgNOp("+", pgNOp("*", x(), pgNCall("closure", pgNId("f"), pgNCall("static", pgNId("abs"), pgNUn("-", pgNId("y"))))),
 				pgNMethod("method", pgNMethod("method", pgNList(pgNInt(1), pgNInt(2)), "map", pgNId("f")), "size")), pgNCall("static", pgNId("throw"), pgNStr("y"))))), ints...),
+	}
+	// an impure call inside a capturing closure nested in a non-capturing closure applied to constants
+	// (direct, via map, via a map field, curried, three levels, handed to a method, inside a recursive func)
+	for form := 0; form < 7; form++ {
+		t := pgImpureNested(form, int64(form+1), []string{"a", "b", "c", "g"}, 1, 2, 3)
+		if form != 0 {
+			t = pgNOp("+", t, x())
+		}
+		ps = append(ps, mk(t, ints...))
 	}
 	// every operator, every pair of constant kinds, the three chain shapes; x ranges over all kinds
 	n := 0
